@@ -92,7 +92,10 @@ package command
 //@   ensures parameters.DryRun ==> published == old(published) && enqueued == old(enqueued) && commander.lastLog == old(commander.lastLog) && commander.lastTXID == old(commander.lastTXID)      // C14
 //@   ensures err != nil ==> published == old(published) && enqueued == old(enqueued)      // C06 C16
 //@   ensures err == nil && !parameters.DryRun ==> published == old(published) + 1      // C16
+// C12: whatever the store holds under the idempotency key, the command ends with a result or an error
+//@   nopanic // C12
 //@   property C02 C06 C07 C11 C14 C16
+//@   alsofor C12
 
 //@ func (*command.Commander).RevertTransaction
 //@   requires commander != nil && commander.lastTXID != nil && idle() && headOK(commander)
@@ -100,7 +103,9 @@ package command
 //@   ensures err != nil ==> published == old(published) && enqueued == old(enqueued)      // C06 C16
 //@   ensures err == nil && !parameters.DryRun ==> published == old(published) + 1      // C16
 //@   ensures forall k string :: held[k] == old(held[k])                          // C07 C10: every reservation is released on every path
+//@   nopanic // C12
 //@   property C02 C06 C07 C10 C11 C14 C16
+//@   alsofor C12
 
 //@ func (*command.Commander).SaveMeta
 //@   requires commander != nil && idle() && headOK(commander)
